@@ -9,18 +9,20 @@ TB = ("Trusted: Lean 4.33 kernel (+ leanchecker in the thorough tier); axioms li
       "lean/Model is tied to /repo only by the differential correspondence run (generator quality "
       "bounds it); harness serialisers/oracles; CPython. ")
 
-CHECKS = {
-    "C01": dict(
-        text="Theorems (Props/C01.lean): every operation of the modelled op language preserves "
-             "well-typedness (WF), hence eval_wf for all operation sequences; the public constructor "
-             "returns a value iff the scan succeeds. Tied to the code by running the same random "
-             "operation sequences on discopy and on the compiled model and comparing all five fields "
-             "(dom, cod, boxes, offsets, layers); WF oracle on every returned and intermediate diagram.",
-        note=TB + "Front-ends (parsers/translators) monitored by the constructor wrap only.",
-        technique="Lean 4 theorem (structural induction over the op language) + differential "
-                  "correspondence against the compiled model",
-        design="6/C01"),
-}
+def load_checks():
+    """One sidecar per claimed property: harness/props/cXX.manifest.json with keys
+    text, note (appended to the common trusted-base text), technique, design."""
+    out = {}
+    pdir = os.path.join(HERE, "harness", "props")
+    for f in sorted(os.listdir(pdir)):
+        if f.endswith(".manifest.json"):
+            c = json.load(open(os.path.join(pdir, f)))
+            c["note"] = TB + c.get("note", "")
+            out[f.split(".")[0].upper()] = c
+    return out
+
+
+CHECKS = load_checks()
 
 NOT_YET = {}
 
